@@ -11,20 +11,18 @@ theorem single_spec : (s : SetShape) → isSingle s = true → WF s = true →
   | .info, _, _ => ⟨{}, by simp [setToIdl, metaOf, fixedAddr]⟩
   | .signer b s, hs, hw => by
     simp only [isSingle] at hs
-    simp only [WF, Bool.and_eq_true, Bool.or_eq_true, Option.isNone_iff_eq_none] at hw
-    obtain ⟨x, hx, h1, h2, h3, h4⟩ := single_spec s hs hw.1.1.2
+    simp only [WF, Bool.and_eq_true, Option.isNone_iff_eq_none] at hw
+    obtain ⟨x, hx, h1, h2, h3, h4⟩ := single_spec s hs hw.1.2
     cases b
-    · refine ⟨x, by simp [setToIdl, hx], ?_, by simp [metaOf, h2], h3, by simp [fixedAddr, h4, hw.2]⟩
-      have := hw.1.2; simp at this; simp [metaOf, h1, this]
+    · exact ⟨x, by simp [setToIdl, hx], by simp [metaOf, h1], by simp [metaOf, h2], h3, by simp [fixedAddr, h4, hw.2]⟩
     · exact ⟨{ x with signer := true }, by simp [setToIdl, hx, mapSingle], by simp [metaOf],
         by simp [metaOf, h2], h3, by simp [fixedAddr, h4, hw.2]⟩
   | .mutable b s, hs, hw => by
     simp only [isSingle] at hs
-    simp only [WF, Bool.and_eq_true, Bool.or_eq_true, Option.isNone_iff_eq_none] at hw
-    obtain ⟨x, hx, h1, h2, h3, h4⟩ := single_spec s hs hw.1.1.2
+    simp only [WF, Bool.and_eq_true, Option.isNone_iff_eq_none] at hw
+    obtain ⟨x, hx, h1, h2, h3, h4⟩ := single_spec s hs hw.1.2
     cases b
-    · refine ⟨x, by simp [setToIdl, hx], by simp [metaOf, h1], ?_, h3, by simp [fixedAddr, h4, hw.2]⟩
-      have := hw.1.2; simp at this; simp [metaOf, h2, this]
+    · exact ⟨x, by simp [setToIdl, hx], by simp [metaOf, h1], by simp [metaOf, h2], h3, by simp [fixedAddr, h4, hw.2]⟩
     · exact ⟨{ x with writable := true }, by simp [setToIdl, hx, mapSingle], by simp [metaOf, h1],
         by simp [metaOf], h3, by simp [fixedAddr, h4, hw.2]⟩
   | .init s, hs, hw => by
@@ -60,12 +58,12 @@ theorem flatten_setToIdl (prog : List Nat) (present : Bool) : (s : SetShape) →
   | .signer b s, hw => by
     have hw' := hw
     simp only [WF, Bool.and_eq_true, Option.isNone_iff_eq_none] at hw'
-    rw [flatten_single prog present (.signer b s) (by simpa [isSingle] using hw'.1.1.1) hw]
+    rw [flatten_single prog present (.signer b s) (by simpa [isSingle] using hw'.1.1) hw]
     simp [clientSlots, metaOf, fixedAddr, keyOf]
   | .mutable b s, hw => by
     have hw' := hw
     simp only [WF, Bool.and_eq_true, Option.isNone_iff_eq_none] at hw'
-    rw [flatten_single prog present (.mutable b s) (by simpa [isSingle] using hw'.1.1.1) hw]
+    rw [flatten_single prog present (.mutable b s) (by simpa [isSingle] using hw'.1.1) hw]
     simp [clientSlots, metaOf, fixedAddr, keyOf]
   | .init s, hw => by
     have hw' := hw
@@ -116,6 +114,67 @@ theorem agree_refl (a : Slot) : agree a a = true := by simp [agree]
 theorem agreeAll_refl : (l : List Slot) → agreeAll l l = true
   | [] => rfl
   | a :: as => by simp [agreeAll, agree_refl, agreeAll_refl as]
+
+theorem agreeAll_append : (a b c d : List Slot) → agreeAll a b = true → agreeAll c d = true →
+    agreeAll (a ++ c) (b ++ d) = true
+  | [], [], _, _, _, h2 => by simpa using h2
+  | [], _ :: _, _, _, h1, _ => by simp [agreeAll] at h1
+  | _ :: _, [], _, _, h1, _ => by simp [agreeAll] at h1
+  | x :: a, y :: b, c, d, h1, h2 => by
+    simp only [agreeAll, Bool.and_eq_true] at h1
+    simp only [List.cons_append, agreeAll, Bool.and_eq_true]
+    exact ⟨h1.1, agreeAll_append a b c d h1.2 h2⟩
+
+theorem lookupAttr_mem (id : Option String) : (as : List FieldAttr) → (a : FieldAttr) →
+    lookupAttr id as = some a → a ∈ as
+  | [], _, h => by simp [lookupAttr] at h
+  | b :: bs, a, h => by
+    simp only [lookupAttr] at h
+    split at h
+    · simp only [Option.some.injEq] at h; simp [h]
+    · simp [lookupAttr_mem id bs a h]
+
+/-- One field of a multi-variant set: whatever variant is requested, the flattened IDL of the field
+agrees with its client meta (an address pinned by THAT variant's attribute over the explicit key). -/
+theorem field_agree (prog : List Nat) (present : Bool) (id : Option String) (f : VField)
+    (h : VFieldOk prog f = true) :
+    agreeAll (flatten prog present (fieldToIdl id f)) (clientSlots prog present f.inner) = true := by
+  simp only [VFieldOk, Bool.and_eq_true, Option.isNone_iff_eq_none, List.all_eq_true] at h
+  obtain ⟨⟨⟨hs, hw⟩, hf⟩, ha⟩ := h
+  have hc : clientSlots prog present f.inner = [⟨(metaOf f.inner).1, (metaOf f.inner).2, .fresh⟩] := by
+    rw [← flatten_setToIdl prog present f.inner hw, flatten_single prog present f.inner hs hw, hf]; rfl
+  unfold fieldToIdl
+  split
+  · rw [flatten_setToIdl prog present f.inner hw]; exact agreeAll_refl _
+  · rename_i a hl
+    have hmem := lookupAttr_mem id f.attrs a hl
+    have hsh : ∀ sh, sh = (if a.seeds then SetShape.seeded f.inner else f.inner) →
+        ∃ x, setToIdl sh = .single x ∧ x.signer = (metaOf f.inner).1 ∧ x.writable = (metaOf f.inner).2
+          ∧ x.optional = false ∧ x.address = none := by
+      intro sh he
+      cases hse : a.seeds <;> simp only [hse, if_true, if_false, Bool.false_eq_true] at he <;> subst he
+      · obtain ⟨x, hx, h1, h2, h3, h4⟩ := single_spec f.inner hs hw
+        exact ⟨x, hx, h1, h2, h3, by rw [h4, hf]⟩
+      · obtain ⟨x, hx, h1, h2, h3, h4⟩ := single_spec (.seeded f.inner) (by simpa [isSingle] using hs)
+          (by simp [WF, hs, hw, hf])
+        exact ⟨x, hx, by simpa [metaOf] using h1, by simpa [metaOf] using h2, h3, by simpa [fixedAddr] using h4⟩
+    obtain ⟨x, hx, h1, h2, h3, h4⟩ := hsh _ rfl
+    rw [hx, hc]
+    cases had : a.address with
+    | none => simp [withAddress, flatten, h1, h2, h3, h4, keyOf, agreeAll, agree]
+    | some ad =>
+      have hne : ad ≠ prog := by
+        have := ha a hmem; simp only [had] at this; simpa using this
+      simp [withAddress, mapSingle, flatten, h1, h2, h3, keyOf, hne, agreeAll, agree]
+
+theorem fields_agree (prog : List Nat) (present : Bool) (id : Option String) : (fs : List VField) →
+    (∀ f ∈ fs, VFieldOk prog f = true) →
+    agreeAll (flattenAll prog present (fs.map (fieldToIdl id))) (clientSlotsAll prog present (fs.map (·.inner))) = true
+  | [], _ => by simp [flattenAll, clientSlotsAll, agreeAll]
+  | f :: fs, h => by
+    simp only [List.map_cons, flattenAll, clientSlotsAll]
+    exact agreeAll_append _ _ _ _ (field_agree prog present id f (h f (by simp)))
+      (fields_agree prog present id fs (fun g hg => h g (by simp [hg])))
 
 /-! ### discriminants -/
 
